@@ -135,6 +135,10 @@ def generate(rng, tier, seed):
     # parity helper
     vals = list(range(1 << 16)) + [rng.getrandbits(32) for _ in range(4000 if tier == "quick" else 60000)]
     vals += [0xFFFFFFFF, 0x80000000, 0x7FFFFFFF, 0x10000, 0xFFFF0000]
+    # every bit-length class 17..32 on its own (a fold that is wrong for one width must meet values of that width), and sparse values
+    for width in range(17, 33):
+        vals += [(1 << (width - 1)) | rng.getrandbits(width - 1) for _ in range(40 if tier == "quick" else 400)]
+        vals += [1 << (width - 1), (1 << width) - 1 if width < 33 else 0xFFFFFFFF, (1 << (width - 1)) | 1]
     for v in vals:
         c = Case("odd_parity", {"v": v})
         r = c.call("tools.odd_parity", v)
